@@ -410,8 +410,10 @@ func (c *CEnv) evalBin(e *CExpr) Val {
 }
 
 func (x *Exec) freshBound(h string) string {
-	x.eng.boundCtr++
-	return fmt.Sprintf("%s?%d", h, x.eng.boundCtr)
+	// per verified function, so that the names in an obligation's script do
+	// not depend on which other functions were translated before it
+	x.boundCtr++
+	return fmt.Sprintf("%s?%d", h, x.boundCtr)
 }
 
 func (c *CEnv) evalQuant(e *CExpr) Val {
